@@ -126,6 +126,7 @@ def run(ctx):
     relabelled_app_probe(ctx)
     late_model_cases(ctx)
     later_migration_cases(ctx)
+    unsimulatable_handover_cases(ctx)
     combos = [(k, m, s, o) for k in (0, 1, 2) for m in (1, 2, 3) for s in range(0, m + 1) for o in (False, True)]
     ctx.rng.shuffle(combos)
     if quick:
@@ -383,6 +384,51 @@ def later_migration_cases(ctx):
             if a is None or sorted(set(a.applied_migrations or [])) != sorted(set(rec)):
                 ctx.fail(None, 'after a further run the stored signature still lists %r, the recorder has %r'
                          % (sorted(getattr(a, 'applied_migrations', None) or []), sorted(set(rec))), rep)
+
+
+def unsimulatable_handover_cases(ctx):
+    """the hand-over release also has an evolution made of raw SQL that the package cannot simulate (SQLMutation
+    without an update function) pending in the same run: the hand-over is stored all the same"""
+    from django_evolution.mutations import SQLMutation
+    for (k, m, s, start_i) in ((1, 2, 1, 0), (1, 3, 2, 1), (0, 2, 1, 0)):
+        if ctx.time_left() < 25:
+            return
+        case = Case(k, m, s, False)
+        names = case.names()
+        final_fields = ['base'] + case.fnames + case.gnames
+
+        def evolutions(upto=None, case=case):
+            ev = case.evolutions(upto=upto)
+            if upto is None:
+                ev.insert(len(ev) - 1, {'label': 'raw_touch', 'mutations': [
+                    SQLMutation('raw_touch', ['UPDATE "vapp_alpha" SET "base" = "base";'])]})
+            return ev
+        rep = {'scenario': 'hand-over next to an evolution that cannot be simulated', 'k': k, 'm': m, 's': s,
+               'start': 'evo%d' % start_i}
+        evorig.fresh_databases()
+        evorig.clear_evolutions()
+        ok = run_once(case, ['base'], None, None)['ok']
+        if ok and start_i > 0:
+            ok = run_once(case, ['base'] + case.evo_fields[:start_i], evolutions(upto=start_i), None)['ok']
+        if not ok:
+            ctx.count('unsimulatable_handover:start_failed')
+            continue
+        res = run_once(case, final_fields, evolutions(), case.migrations())
+        ctx.case(rep, nontrivial=True, sample_cap=2)
+        ctx.count('unsimulatable_handover:%s' % ('ok' if res['ok'] else 'fails'))
+        if not res['ok']:
+            ctx.fail(None, 'the hand-over run next to a raw-SQL evolution fails: %s' % res['error'], rep)
+            continue
+        rec = recorder()
+        bk = evorig.bookkeeping()
+        a = bk['sig'].get_app_sig('vapp') if bk['sig'] is not None else None
+        rep.update({'recorded': rec, 'stored_upgrade_method': getattr(a, 'upgrade_method', None),
+                    'stored_applied_migrations': sorted(getattr(a, 'applied_migrations', None) or [])})
+        if sorted(set(rec)) != sorted(names):
+            ctx.fail(None, 'recorded migrations %s, expected the whole chain %s' % (rec, names), rep)
+        if a is None or a.upgrade_method != 'migrations' or sorted(set(a.applied_migrations or [])) != sorted(set(rec)):
+            ctx.fail(None, 'after the hand-over the stored signature says upgrade_method=%r applied_migrations=%r, the '
+                     'recorder has %r' % (rep['stored_upgrade_method'], rep['stored_applied_migrations'], sorted(set(rec))), rep)
 
 
 def relabelled_app_probe(ctx):
